@@ -71,3 +71,11 @@ def type_of_name(val):
     if e is not None and e.op == "str":
         return e.args[0], "literal", None
     return None, None, None
+
+
+def rendered_type_name(val):
+    """The string rustc's own type_name implementation renders for the recorded type (exported by the driver), or None."""
+    e = val.e if isinstance(val, Opaque) else None
+    if e is not None and e.op == "type_name" and len(e.args) > 3:
+        return e.args[3]
+    return None
